@@ -198,7 +198,12 @@ def run(c):
         for L in lengths:
             name, data = files[L]
             for value, specs in gen_headers(rng, L, per_len):
-                raw = ("GET %s HTTP/1.1\r\nHost: localhost\r\nRange: %s\r\n\r\n" % (name, value)).encode("utf-8")
+                # header names are case-insensitive; the Range header is not always the last one
+                hn = rng.choice(["Range"] * 5 + ["range", "RANGE", "rAnGe"])
+                tail = rng.choice([""] * 3 + ["Accept: */*\r\n", "X-After: 1\r\nUser-Agent: vf\r\n"])
+                raw = ("GET %s HTTP/1.1\r\nHost: localhost\r\n%s: %s\r\n%s\r\n" % (name, hn, value, tail)).encode("utf-8")
+                if hn != "Range":
+                    c.count("range_header_name_spelled_" + hn)
                 work.append((L, value, specs, raw))
         # as many specs as fit into the request buffer (thorough): also drives the i32 sums in the logger
         if not c.quick:
